@@ -40,6 +40,11 @@ struct DealerSocketOutgoingProcessor {
   outgoing_orchestrator: Arc<OutgoingMessageOrchestrator>,
   queue_activity_notifier: Arc<Notify>,
   peer_availability_notifier: Arc<Notify>,
+  /// Signalled whenever the processor takes a message out of the pending queue (a slot is free).
+  queue_space_notifier: Arc<Notify>,
+  /// True while the processor holds a message it popped but has not routed yet; senders must not
+  /// bypass the queue in that window or they would overtake it.
+  busy: Arc<std::sync::atomic::AtomicBool>,
   stop_signal: Arc<Notify>,
 }
 
@@ -68,15 +73,28 @@ impl DealerSocketOutgoingProcessor {
               tracing::trace!("[DealerProc {}] Woke on peer_availability_notifier.", self.core_handle);
             },
           }
-        } => {
+        } => {}
+      }
+
+      // Drain everything that is queued: one wake-up may stand for several queued messages
+      // (Notify keeps at most one permit), so forwarding a single message per wake-up would
+      // strand the rest.
+      loop {
+        {
           let mut queue_guard = self.pending_queue.lock().await;
           if !queue_guard.is_empty() && self.outgoing_orchestrator.has_connections() {
+            self.busy.store(true, std::sync::atomic::Ordering::Release);
             current_message_to_send_option = queue_guard.pop_front();
           }
         }
-      }
-
-      if let Some(zmtp_frames_for_logical_message) = current_message_to_send_option {
+        let Some(zmtp_frames_for_logical_message) = current_message_to_send_option.take() else {
+          tracing::trace!(
+            "[DealerProc {}] Nothing (more) to forward from the queue. Continuing to wait.",
+            self.core_handle
+          );
+          break;
+        };
+        self.queue_space_notifier.notify_waiters();
         tracing::trace!(
           "[DealerProc {}] Processing message from outgoing queue ({} parts).",
           self.core_handle,
@@ -84,21 +102,19 @@ impl DealerSocketOutgoingProcessor {
         );
 
         match self.outgoing_orchestrator.route_message(zmtp_frames_for_logical_message, false).await {
-          Ok(()) => {}
+          Ok(()) => {
+            self.busy.store(false, std::sync::atomic::Ordering::Release);
+          }
           Err((returned, _)) => {
             tracing::debug!(
               "[DealerProc {}] route_message failed (all peers full or no peers). Re-queuing.",
               self.core_handle
             );
             self.pending_queue.lock().await.push_front(returned);
-            self.queue_activity_notifier.notify_one();
+            self.busy.store(false, std::sync::atomic::Ordering::Release);
+            break;
           }
         }
-      } else {
-        tracing::trace!(
-          "[DealerProc {}] No message popped from queue (or conditions not met). Continuing to wait.",
-          self.core_handle
-        );
       }
     }
     tracing::debug!(
@@ -119,6 +135,8 @@ pub(crate) struct DealerSocket {
   pending_outgoing_queue: Arc<TokioMutex<VecDeque<FrameBatch>>>,
   outgoing_queue_activity_notifier: Arc<Notify>,
   peer_availability_notifier: Arc<Notify>,
+  queue_space_notifier: Arc<Notify>,
+  processor_busy: Arc<std::sync::atomic::AtomicBool>,
   processor_task_handle: TokioMutex<Option<JoinHandle<()>>>,
   processor_stop_signal: Arc<Notify>,
   current_send_transaction: TokioMutex<DealerSendTransaction>,
@@ -132,6 +150,8 @@ impl DealerSocket {
     let queue_notifier_arc = Arc::new(Notify::new());
     let peer_notifier_arc = Arc::new(Notify::new());
     let stop_signal_arc = Arc::new(Notify::new());
+    let space_notifier_arc = Arc::new(Notify::new());
+    let busy_arc = Arc::new(std::sync::atomic::AtomicBool::new(false));
 
     let processor = DealerSocketOutgoingProcessor {
       core_handle: core.handle,
@@ -139,6 +159,8 @@ impl DealerSocket {
       outgoing_orchestrator: orchestrator_arc.clone(),
       queue_activity_notifier: queue_notifier_arc.clone(),
       peer_availability_notifier: peer_notifier_arc.clone(),
+      queue_space_notifier: space_notifier_arc.clone(),
+      busy: busy_arc.clone(),
       stop_signal: stop_signal_arc.clone(),
     };
 
@@ -154,6 +176,8 @@ impl DealerSocket {
       pending_outgoing_queue: pending_queue_arc,
       outgoing_queue_activity_notifier: queue_notifier_arc,
       peer_availability_notifier: peer_notifier_arc,
+      queue_space_notifier: space_notifier_arc,
+      processor_busy: busy_arc,
       processor_task_handle: TokioMutex::new(Some(processor_jh)),
       processor_stop_signal: stop_signal_arc,
       current_send_transaction: TokioMutex::new(DealerSendTransaction::Idle),
@@ -374,6 +398,15 @@ impl ISocket for DealerSocket {
       return Err((msg, ZmqError::ResourceLimitReached));
     }
     drop(guard);
+    // Older messages may still sit in the pending queue (or be in the processor's hands): the fast
+    // path must not overtake them, so fall back to the ordered async path in that case.
+    if self.processor_busy.load(std::sync::atomic::Ordering::Acquire) {
+      return Err((msg, ZmqError::ResourceLimitReached));
+    }
+    match self.pending_outgoing_queue.try_lock() {
+      Ok(q) if q.is_empty() => {}
+      _ => return Err((msg, ZmqError::ResourceLimitReached)),
+    }
     let mut fb = FrameBatch::new();
     fb.push(msg);
     let wire_frames = self.prepare_full_multipart_send_sequence(fb);
@@ -514,6 +547,7 @@ impl ISocket for DealerSocket {
         }
         self.outgoing_queue_activity_notifier.notify_waiters();
         self.peer_availability_notifier.notify_waiters();
+        self.queue_space_notifier.notify_waiters();
       }
       _ => return Ok(false),
     }
@@ -606,6 +640,16 @@ impl DealerSocket {
       )
     };
 
+    // Messages parked in the pending queue (accepted before a peer existed, or while every
+    // peer was full) are older than this one: go behind them instead of overtaking them.
+    let must_queue = self.processor_busy.load(std::sync::atomic::Ordering::Acquire)
+      || !self.pending_outgoing_queue.lock().await.is_empty();
+    if must_queue {
+      return self
+        .queue_message_or_error(zmtp_wire_frames, global_sndhwm, global_sndtimeo)
+        .await;
+    }
+
     match self.outgoing_orchestrator.route_message(zmtp_wire_frames, false).await {
       Ok(()) => Ok(()),
       Err((returned, _)) => {
@@ -631,6 +675,11 @@ impl DealerSocket {
           "Socket is closing while trying to queue".into(),
         ));
       }
+      // Register for "a slot was freed" before looking at the queue, so that a pop between the
+      // check and the wait is not missed.
+      let space_freed = self.queue_space_notifier.notified();
+      tokio::pin!(space_freed);
+      space_freed.as_mut().enable();
       {
         let mut queue_guard = self.pending_outgoing_queue.lock().await;
         if queue_guard.len() < global_sndhwm {
@@ -642,8 +691,7 @@ impl DealerSocket {
       match global_sndtimeo {
         Some(duration) if duration.is_zero() => return Err(ZmqError::ResourceLimitReached),
         Some(duration) => {
-          let queue_wait_fut = self.outgoing_queue_activity_notifier.notified();
-          if tokio_timeout(duration, queue_wait_fut).await.is_err() {
+          if tokio_timeout(duration, space_freed).await.is_err() {
             return Err(ZmqError::Timeout);
           }
         }
@@ -653,7 +701,7 @@ impl DealerSocket {
             _ = async { if !self.core.is_running() { futures::future::pending().await } else { futures::future::pending().await } } => {
               return Err(ZmqError::InvalidState("Socket is closing while waiting for queue space".into()));
             }
-            _ = self.outgoing_queue_activity_notifier.notified() => {}
+            _ = &mut space_freed => {}
             _ = self.peer_availability_notifier.notified() => {}
           }
         }
